@@ -1,7 +1,7 @@
 (* C18Theorems.v — the property theorems of C18 and nothing else.  Each is closed by
    `exact <lemma>` and followed by Print Assumptions (audited by ./check on every run). *)
 From V.lib Require Import Base.
-From V.c18 Require Import C18Model C18BitsProofs C18AscProofs C18AdtsProofs C18EntryModel C18EntryProofs C18TieProofs C18HistModel C18HistProofs C18DescModel C18DescProofs.
+From V.c18 Require Import C18Model C18BitsProofs C18AscProofs C18AdtsProofs C18EntryModel C18EntryProofs C18TieProofs C18HistModel C18HistProofs C18DescModel C18DescProofs C18RangeProofs.
 
 (* DecodeAudioSpecificConfig inverts Encode on the whole supported domain: object types 2/5/29,
    all 16 channel configurations, every sampling / extension frequency in 0 .. 2^24-1 (the 13 table
@@ -394,3 +394,60 @@ Theorem C18_set_aac_esds_general :
                /\ esds_asc (be32 0 ++ es_bytes dc) = Ok (set_aac_asc ot f).
 Proof. exact set_aac_esds_general. Qed.
 Print Assumptions C18_set_aac_esds_general.
+
+(* ------------------------------------------------------------------ the hypotheses are decoder invariants *)
+(* "every ... configuration the library supports": the hypothesis `canonical` of C18_asc_roundtrip is not an
+   assumption about the inputs the library meets - it holds of EVERY configuration DecodeAudioSpecificConfig
+   returns, on any input whatsoever (arbitrary, malformed, foreign-encoder bytes) ... *)
+Theorem C18_decode_asc_canonical :
+  forall (data : list N) (a : asc), decode_asc data = Ok a -> canonical a = true.
+Proof. exact decode_asc_canonical. Qed.
+Print Assumptions C18_decode_asc_canonical.
+
+(* ... so the round trip needs no hypothesis on decoder results: whatever the decoder accepted, the
+   configuration it returned is encoded by Encode and read back as itself (decode ; encode ; decode = decode) *)
+Theorem C18_decode_asc_reencode :
+  forall (data : list N) (a : asc), decode_asc data = Ok a -> rbind (encode_asc a) decode_asc = Ok a.
+Proof. exact decode_asc_reencode. Qed.
+Print Assumptions C18_decode_asc_reencode.
+
+Example C18_decode_asc_reencode_sat :
+  (* a foreign encoding: 48000 Hz written through the 24-bit escape, trailing bits set *)
+  decode_asc [23; 128; 93; 192; 23] = Ok (mkAsc AAClc 2 48000%Z 0%Z false false)
+  /\ encode_asc (mkAsc AAClc 2 48000%Z 0%Z false false) = Ok [17; 144].
+Proof. split; vm_compute; reflexivity. Qed.
+
+(* and `canonical` is exactly the range of the decoder: the domain of C18_asc_roundtrip is neither smaller nor
+   larger than the set of configurations the library can produce from bytes *)
+Theorem C18_canonical_is_decoder_range :
+  forall a : asc, canonical a = true <-> exists data, bytes_ok data = true /\ decode_asc data = Ok a.
+Proof. exact canonical_is_decoder_range. Qed.
+Print Assumptions C18_canonical_is_decoder_range.
+
+(* every header DecodeADTSHeader returns (any input, any sync offset) that is MPEG-4, CRC-less and announces a
+   frame of at least the 7 header bytes satisfies the hypothesis of C18_adts_roundtrip ... *)
+Theorem C18_decode_adts_canonical :
+  forall (data : list N) (h : adts) (off : Z),
+    decode_adts data = Ok (h, off) -> h_id h = 0 -> h_hlen h = 7 -> h_plen h <= 8184 -> adts_canonical h = true.
+Proof. exact decode_adts_canonical. Qed.
+Print Assumptions C18_decode_adts_canonical.
+
+(* ... hence re-encodes to bytes the decoder reads back as the same header at offset 0 *)
+Theorem C18_decode_adts_reencode :
+  forall (data : list N) (h : adts) (off : Z) (rest : list N),
+    decode_adts data = Ok (h, off) -> h_id h = 0 -> h_hlen h = 7 -> h_plen h <= 8184 ->
+    decode_adts (encode_adts h ++ rest) = Ok (h, 0%Z).
+Proof. exact decode_adts_reencode. Qed.
+Print Assumptions C18_decode_adts_reencode.
+
+Example C18_decode_adts_reencode_sat :
+  decode_adts [0; 255; 255; 241; 76; 128; 46; 127; 252; 33] = Ok (mkAdts 0 2 3 2 7 364 2047, 2%Z).
+Proof. vm_compute; reflexivity. Qed.
+
+(* the three guards are exactly what Encode cannot express; the payload guard is sharp: a frame length of 0 is
+   accepted and reported as PayloadLength 65529 = uint16(0 - 7)  (malformed input, outside the property's domain) *)
+Theorem C18_decode_adts_short_frame_wraps :
+  exists data h off,
+    bytes_ok data = true /\ decode_adts data = Ok (h, off) /\ h_id h = 0 /\ h_hlen h = 7 /\ h_plen h = 65529.
+Proof. exact decode_adts_short_frame_wraps. Qed.
+Print Assumptions C18_decode_adts_short_frame_wraps.
